@@ -135,14 +135,14 @@ def _run_with_cfg(module, cfg, work, workers, timeout, dump_path, coverage, heap
     return res
 
 
-def validate(module, judge, trace_file, work, timeout=1800, heap="8g", extra_env=None):
+def validate(module, judge, trace_file, work, timeout=1800, heap="8g", extra_env=None, constants=None):
     """Batch trace validation: TLC evaluates spec/<module>.tla's operator named by the
     JUDGE environment variable on every line of the ndjson trace and writes one verdict
     per line ({"k": line number, "v": "ok" | clause name}) to OUT.  Returns the list of
     verdict strings (index = line)."""
     out = trace_file + "." + judge + ".verdicts"
     cfg = os.path.join(work, "%s_%s_val.cfg" % (module, judge))
-    write_cfg(cfg, init="TVInit", next_="TVNext")
+    write_cfg(cfg, init="TVInit", next_="TVNext", constants=constants)
     env = {"TRACE_FILE": trace_file, "OUT": out, "JUDGE": judge}
     env.update(extra_env or {})
     if os.path.exists(out):
